@@ -581,6 +581,10 @@ class _NumpyIdioms(ast.NodeTransformer):
         for nm, op in binops.items():
             if self._is_np(f, nm) and len(node.args) == 2 and nokw:
                 return ast.copy_location(ast.BinOp(node.args[0], op(), node.args[1]), node)
+        if self._is_np(f, "square") and len(node.args) == 1 and nokw:
+            return ast.copy_location(ast.BinOp(node.args[0], ast.Pow(), ast.Constant(2)), node)
+        if self._is_np(f, "power") and len(node.args) == 2 and nokw:
+            return ast.copy_location(ast.BinOp(node.args[0], ast.Pow(), node.args[1]), node)
         if self._is_np(f, "negative") and len(node.args) == 1 and nokw:
             return ast.copy_location(ast.UnaryOp(ast.USub(), node.args[0]), node)
         if self._is_np(f, "matmul") and len(node.args) == 2 and nokw:
@@ -760,6 +764,15 @@ class _Literals(ast.NodeTransformer):
                     continue
             merged.append(a)
             i += 1
+        body = merged
+        # `a = b = K` with a constant K -> `a = K; b = K`
+        merged = []
+        for a in body:
+            if isinstance(a, ast.Assign) and len(a.targets) > 1 and isinstance(a.value, ast.Constant) and all(isinstance(t, ast.Name) for t in a.targets):
+                for t in a.targets:
+                    merged.append(ast.copy_location(ast.Assign([t], ast.copy_location(ast.Constant(a.value.value), a.value)), a))
+            else:
+                merged.append(a)
         body = merged
         # `t = A if c else B` -> `if c: t = A else: t = B`
         merged = []
